@@ -1,0 +1,67 @@
+//go:build verif
+// +build verif
+
+package bn256
+
+import (
+	"math/big"
+
+	"github.com/dedis/kyber"
+)
+
+// Hooks for the verification harness (/verif). Built only with -tags verif.
+
+// VerifGfp runs one base-field primitive on raw 4x64-bit limbs (little-endian words).
+// op: 0 add, 1 sub, 2 neg, 3 mul (Montgomery), 4 montEncode, 5 montDecode, 6 Invert.
+func VerifGfp(op int, a, b [4]uint64) [4]uint64 {
+	x, y, c := gfP(a), gfP(b), gfP{}
+	switch op {
+	case 0:
+		gfpAdd(&c, &x, &y)
+	case 1:
+		gfpSub(&c, &x, &y)
+	case 2:
+		gfpNeg(&c, &x)
+	case 3:
+		gfpMul(&c, &x, &y)
+	case 4:
+		montEncode(&c, &x)
+	case 5:
+		montDecode(&c, &x)
+	case 6:
+		c.Invert(&x)
+	}
+	return [4]uint64(c)
+}
+
+// VerifSetBMI2 selects the gfpMul code path; it returns the previous setting.
+// VerifHasBMI2 reports whether the CPU supports the MULX path at all.
+func VerifSetBMI2(on bool) bool {
+	old := hasBMI2
+	hasBMI2 = on
+	return old
+}
+
+var verifCPUHasBMI2 = hasBMI2
+
+func VerifHasBMI2() bool { return verifCPUHasBMI2 }
+
+// VerifG1Mul / VerifG2Mul multiply a point by an arbitrary (unreduced, non-negative) integer.
+func VerifG1Mul(p kyber.Point, k *big.Int) kyber.Point {
+	r := newPointG1()
+	r.g.Mul(p.(*pointG1).g, k)
+	return r
+}
+
+func VerifG2Mul(p kyber.Point, k *big.Int) kyber.Point {
+	r := newPointG2()
+	r.g.Mul(p.(*pointG2).g, k)
+	return r
+}
+
+// VerifGTExp raises a GT element to an arbitrary non-negative integer.
+func VerifGTExp(p kyber.Point, k *big.Int) kyber.Point {
+	r := newPointGT()
+	r.g.Exp(p.(*pointGT).g, k)
+	return r
+}
